@@ -702,6 +702,13 @@ def unary_data(A, alg):
         fw = np.log(w)
     keep = np.abs(w) > thr
     near_tie = bool(np.any(np.abs(np.abs(w) - thr) <= 1e-6 * thr))
+    # a (nearly) defective projected matrix: the eigenvector basis P is ill conditioned and the float contraction Q P (f * P^-1 e0) loses
+    # eps * cond(P) to cancellation, so it cannot be compared with exact arithmetic on the same data
+    with np.errstate(all="ignore"):
+        try:
+            near_tie = near_tie or not (max(float(np.linalg.cond(P[i])) for i in range(P.shape[0])) <= 1e4)
+        except np.linalg.LinAlgError:
+            near_tie = True
     nonfinite = bool(np.any(keep & ~np.isfinite(fw))) or not (np.all(np.isfinite(Q)) and np.all(np.isfinite(P)) and np.all(np.isfinite(c)) and np.all(np.isfinite(w)))
     fw = np.where(np.isfinite(fw), fw, 0)
     return dict(adj=bool(adj), Q=Q, P=P, w=w, fw=fw, c=c, eps=eps, near_tie=near_tie, nonfinite=nonfinite, masked=int((~keep).sum()),
